@@ -87,6 +87,14 @@ def replay(case):
             idp = spc.idp_for(metadata=[env.sp_metadata(keys=(('kSpEnc1', None),))])
         else:
             idp = spc.idp_for()
+        if scn.get('priorVerify') and scn.get('spKey') != 'unlabelled':
+            import c10
+            req = c10.request_xml('authn', 'req-prior', c10.IDP_SSO['post'], env.ts(spc.now() - 5), sb.signature_template('req-prior', 'sha256'))
+            req = sb.sign(req, sb.NS_SAMLP, 'AuthnRequest', 'req-prior', 'kSp')
+            try:
+                idp.parse_authn_request(sb.b64(req), env.BINDING_POST)
+            except Exception:
+                pass
         try:
             res = idp.create_authn_response(
                 {'givenName': ['secret-given-é'], 'surName': ['secret-sn']}, 'id1', env.SP_ACS_POST, env.SP,
